@@ -49,6 +49,7 @@ type NodeCfg struct {
 	GateCommits bool
 	GateHooks   bool // request/block/response hooks park before returning
 	Validate    bool // register a request hook that validates every request
+	NoPanicCB   bool // build the node without a PanicCallback option (the default configuration)
 }
 
 // Node is one real GraphSync instance on the simulated fabric.
@@ -160,6 +161,9 @@ func (n *Node) start() {
 		n.mu.Unlock()
 		w.Effect("panic-callback %s %v", n.Name, r)
 	})}, n.Cfg.Opts...)
+	if n.Cfg.NoPanicCB {
+		opts = n.Cfg.Opts
+	}
 	n.Net = gsnet.NewFromLibp2pHost(n.Host)
 	w.NameObject(n.Net, n.Name)
 	n.GS = gsimpl.New(n.ctx, n.Net, n.Store.LinkSystem(), opts...)
